@@ -392,6 +392,21 @@ StaticWhy(p) ==
 FloatClassInSubset(cls) == cls.finite /\ cls.use \in {"print", "concat", "compare", "truthy", "mapkey", "fn-int"}
 
 (***************************************************************************)
+(* Bundles at the edge of validity (duplicate template names, names that    *)
+(* differ only in case or repeat a namespace segment, ...).  The reference  *)
+(* program model is a map from template names to templates, so it cannot    *)
+(* even express them; what the property demands is:  IF the compiler        *)
+(* accepts the bundle THEN both back ends render it alike.  The harness      *)
+(* reports the class [kind |-> "bundle", accepted, plain] (plain = the      *)
+(* templates contain only raw text, prints of string params and calls, all  *)
+(* of which are in the common subset); a rejected bundle is outside.        *)
+(***************************************************************************)
+BundleClassInSubset(cls) == cls.accepted /\ cls.plain
+
+DirectClassInSubset(cls) ==
+  IF "kind" \in DOMAIN cls /\ cls.kind = "bundle" THEN BundleClassInSubset(cls) ELSE FloatClassInSubset(cls)
+
+(***************************************************************************)
 (* Plural rules of the catalogues the harness installs (the same function  *)
 (* is given to Go as Bundle.PluralCase and to JS as soy.$$pluralIndex).    *)
 (***************************************************************************)
